@@ -17,7 +17,7 @@ from pathlib import Path
 import numpy as np
 
 from engines.procwatch import run_forked
-from vlib.core import ERROR, HELD, VIOLATED, Check, Scratch, result
+from vlib.core import ERROR, HELD, VIOLATED, Check, Scratch, case_bits, result
 
 N = 240
 CHUNK = 60  # 4 chunks
@@ -274,6 +274,11 @@ class C09(Check):
             (target / "sub").mkdir(parents=True)
             (target / "thesis.tex").write_text("precious")
             (target / "sub" / "data.csv").write_text("1,2,3")
+            if (case_bits({k: v for k, v in case.items() if k != "workers"}, "patchlike-foreign") + nw) & 1:
+                # entries that merely look like parts of a cache (round 7: leftovers taken for a cache)
+                (target / "patch_notes.txt").write_text("precious too")
+                (target / "patch_7").mkdir()
+                (target / "patch_7" / "data.bin").write_bytes(b"\x00" * 24)
             kwargs["overwrite"] = True
         elif fault in ("overwrite_regular_file", "exists_regular_file_no_overwrite"):
             target.write_text("precious")
